@@ -65,6 +65,20 @@ def repo_suite_traces(rep, wd):
     n = exectrace.validate(rep, wd, ev, "Trace_Exec_repo_tests")
     rep.notes.append("repository test-suite traced with -tags verif: %d executions validated by Trace_Exec" % n)
 
+def random_program_traces(rep, wd, exe, seed, n, depth):
+    """seeded random programs, deeper and wider than the model-checked families, traced and validated (code -> spec)"""
+    import exectrace
+    ev = os.path.join(wd, "events_random.ndjson")
+    p = run_harness(exe, ["record-exec", str(seed), str(n), str(depth)], env={"VERIF_TRACE": ev}, timeout=1800)
+    out = (p.stdout or "") + (p.stderr or "")
+    if "RANDOM-PROGRAM-PANIC" in out:
+        rep.violation({"kind": "panic", "tag": "random-program"}, {"detail": out[:3000], "replay_cmd": "record-exec %d %d %d" % (seed, n, depth)})
+        return
+    if p.returncode != 0:
+        raise Inconclusive("record-exec failed: " + out[-1000:])
+    k = exectrace.validate(rep, wd, ev, "Trace_Exec_random_programs")
+    rep.notes.append("random programs (seed %d, depth %d): %d executions traced and validated" % (seed, depth, k))
+
 def asis_refuted(rep, wd, module, label, consts, subst, expect, workers=8):
     """Design-level record of a repaired defect: the as-implemented variant must be refuted by TLC."""
     c = dict(BASE)
